@@ -1,18 +1,28 @@
 //! C03R — internal driver (not a property of MANIFEST.json; run by `bin/check C03` and
 //! `bin/check C06` through `also_drivers`): the race between futures polled / dropped on one or
 //! two threads and `Ring::poll` on another thread, on the REAL code under the baton scheduler and
-//! the simulated (auto-completing) kernel. The executed interleaving is replayed step by step on
+//! the simulated kernel: single-shot writes, multishot accepts (a stream of results) and zero-copy
+//! sends (result completion with F_MORE, then a notification); the kernel either auto-completes
+//! (single-shot only, as before) or posts scripted completions from a kernel thread that is
+//! scheduled like the others (its steps are the `K i` events of the model). The executed
+//! interleaving is replayed step by step on
 //! coq/Model/OpRace.v: per executed segment the hook-point code the thread was resumed from and
 //! what the segment did (poll results, wake-ups in order, submissions the kernel consumed, frees
 //! of operation states seen by the tracking allocator); at the end what is left.
 //!
-//! Four phases, each a `sched::run`: (1) the race; (2) the ring alone, a few more polls — then
-//! the oracle of `ops::sched_case`: every future that is still pending has had the waker of its
-//! most recent poll invoked; (3) the future threads drop what is left; (4) the ring alone, two
-//! polls. Then the ring is dropped (not modelled) and every started operation's state must have
-//! been freed exactly once.
+//! Phases, each a `sched::run`: (1) the race; (2) the kernel posts a little more, then the ring
+//! alone, a few more polls — then the wake-up oracle: every future that is still pending AND ready
+//! (final completion posted; a stream: a result posted that was not handed out) has had the waker
+//! of its most recent poll invoked since that poll; (3) a second race: woken futures are polled
+//! again (stream items, results) while more completions are posted and dispatched; (4) the kernel
+//! posts what is left of the scripts of the requests in flight, the ring alone, the oracle again;
+//! (5) the future threads drop what is left; (6) the ring alone, two polls, the kernel again, two
+//! more polls. Then the ring is dropped (not modelled) and every started operation's
+//! state must have been freed exactly once. Independent oracles all along: the values a future
+//! hands out are the results the kernel posted for ITS request, in order, each once (C02); no
+//! state is freed while the kernel still has the request in flight (C06).
 
-use std::collections::{BTreeMap, BTreeSet};
+use std::collections::{BTreeMap, BTreeSet, HashMap};
 use std::fmt::Write as _;
 use std::future::Future;
 use std::mem::ManuallyDrop;
@@ -29,10 +39,46 @@ use crate::{alloc, sched, Args};
 
 type BoxFut = Pin<Box<dyn Future<Output = std::io::Result<usize>> + Send>>;
 
+/// A future under test: a write / zero-copy send, or a multishot accept stream.
+enum Fut {
+    Res(BoxFut),
+    Accept(Pin<Box<a10::net::MultishotAccept<'static>>>),
+}
+
+#[derive(Clone, Copy, Debug, PartialEq, Eq)]
+enum Kind {
+    Single,
+    Multi,
+    TwoStep,
+}
+
+impl Kind {
+    fn coq(self) -> &'static str {
+        match self {
+            Kind::Single => "Single",
+            Kind::Multi => "Multi",
+            Kind::TwoStep => "TwoStep",
+        }
+    }
+}
+
+/// A scripted completion: result, F_MORE, F_NOTIF.
+#[derive(Clone, Copy, Debug, PartialEq, Eq)]
+struct Cq {
+    res: i32,
+    more: bool,
+    notif: bool,
+}
+
 static DATA: &[u8] = b"race payload....";
 
 fn fake_fd(i: usize) -> i32 {
     1_000_000 + i as i32
+}
+
+/// Descriptor number the k-th completion of stream `i` reports (unique in the case).
+fn accepted_fd(i: usize, k: usize) -> i32 {
+    1_100_000 + (i * 64 + k) as i32
 }
 
 #[derive(Clone, Copy, Debug)]
@@ -58,11 +104,33 @@ struct Ctx {
     last_poll: Vec<Option<(u64, bool)>>,
     started: Vec<bool>,
     progs: Vec<Vec<Call>>,
-    futs: Vec<Option<BoxFut>>,
+    futs: Vec<Option<Fut>>,
     next_waker: u64,
     oracle: Option<String>,
     parked: usize,
     repolls_unwoken: usize,
+    kinds: Vec<Kind>,
+    scripts: Vec<Vec<Cq>>,
+    /// Completions of each script the kernel thread has posted.
+    script_pos: Vec<usize>,
+    /// Operation chosen at each kernel step (`n_futs` = nothing to do), in order.
+    kchoices: Vec<usize>,
+    /// Every completion the simulated kernel posted for each operation (from its log), in order.
+    posted: Vec<Vec<Cq>>,
+    /// Values each future handed out, in order; whether its stream ended.
+    outs: Vec<Vec<i128>>,
+    ended: Vec<bool>,
+    /// Times each waker id was invoked; the count of the waker of the most recent poll at that poll.
+    wakes: HashMap<u64, usize>,
+    wakes_at_poll: Vec<usize>,
+    waker_cache: HashMap<u64, Waker>,
+    accepted: Vec<ManuallyDrop<a10::AsyncFd>>,
+    same_waker_repolls: usize,
+    stream_polls_during_ring_poll: usize,
+    drops_of_running: Vec<usize>,
+    items: usize,
+    in_ring_poll: bool,
+    in_race: bool,
 }
 
 impl Ctx {
@@ -87,6 +155,7 @@ impl Wake for RaceWaker {
         c.ev.push(30);
         c.ev.push(self.id as i128);
         c.woken_ids.insert(self.id);
+        *c.wakes.entry(self.id).or_insert(0) += 1;
     }
 }
 
@@ -95,6 +164,7 @@ impl Wake for RaceWaker {
 fn drain(ctx: &Arc<Mutex<Ctx>>, n_futs: usize) {
     let pending: Vec<abi::Sqe> = simk::with(|s| s.pending_sqes());
     let log = simk::with(|s| s.take_log());
+    let inflight_ud: Vec<u64> = simk::with(|s| s.inflight.iter().map(|r| r.sqe.user_data).collect());
     let mut c = ctx.lock().unwrap();
     let learn = |c: &mut Ctx, q: &abi::Sqe| {
         if q.opcode == abi::OP_ASYNC_CANCEL {
@@ -141,6 +211,11 @@ fn drain(ctx: &Arc<Mutex<Ctx>>, n_futs: usize) {
                     c.ev.push(if sqe.fd >= fake_fd(0) && i < n_futs { i as i128 } else { -1 });
                 }
             }
+            Ev::Posted { cqe, .. } => {
+                if let Some(t) = c.ud.iter().position(|u| *u == Some(cqe.user_data)) {
+                    c.posted[t].push(Cq { res: cqe.res, more: cqe.flags & abi::CQE_F_MORE != 0, notif: cqe.flags & abi::CQE_F_NOTIF != 0 });
+                }
+            }
             Ev::Corrupt { what } => c.fail(what),
             _ => {}
         }
@@ -150,41 +225,157 @@ fn drain(ctx: &Arc<Mutex<Ctx>>, n_futs: usize) {
             c.frees[op] += 1;
             c.ev.push(40);
             c.ev.push(op as i128);
+            // C06 / C01: the kernel must be done with the request (its final completion posted).
+            if let Some(ud) = c.ud[op] {
+                let queued = pending.iter().any(|q| q.opcode != abi::OP_ASYNC_CANCEL && q.user_data == ud);
+                if inflight_ud.contains(&ud) || queued {
+                    let k = c.kinds[op];
+                    let n = c.posted[op].len();
+                    c.fail(format!(
+                        "the state of operation {op} ({k:?}) was freed while the kernel still has its request in flight ({n} completion(s) posted so far, none of them final): a later completion is dispatched into freed memory"
+                    ));
+                }
+            }
         }
     }
 }
 
-fn ring_thread(ring_cell: &Arc<Mutex<Option<a10::Ring>>>, polls: usize) -> Box<dyn FnOnce() + Send> {
+fn ring_thread(ring_cell: &Arc<Mutex<Option<a10::Ring>>>, ctx: &Arc<Mutex<Ctx>>, polls: usize) -> Box<dyn FnOnce() + Send> {
     let ring_cell = ring_cell.clone();
+    let ctx = ctx.clone();
     Box::new(move || {
         if polls == 0 {
             return;
         }
         let mut ring = ring_cell.lock().unwrap().take().unwrap();
-        for _ in 0..polls {
-            let _ = ring.poll(Some(Duration::ZERO));
-        }
+        // A panic inside `Ring::poll` (e.g. the deadlock detector: a mutex inside freed memory) must
+        // not drop the ring while unwinding (a second panic would abort the process): put it back.
+        let res = std::panic::catch_unwind(std::panic::AssertUnwindSafe(|| {
+            for _ in 0..polls {
+                ctx.lock().unwrap().in_ring_poll = true;
+                let _ = ring.poll(Some(Duration::ZERO));
+                ctx.lock().unwrap().in_ring_poll = false;
+            }
+        }));
         *ring_cell.lock().unwrap() = Some(ring);
+        if let Err(p) = res {
+            std::panic::resume_unwind(p);
+        }
+    })
+}
+
+/// The kernel as a scheduled thread: every step (scheduling point 200, the model's `K i`) posts
+/// the next scripted completion of one request in flight. `steps = None`: until nothing is left.
+fn kernel_thread(ctx: &Arc<Mutex<Ctx>>, seed: u64, steps: Option<usize>) -> Box<dyn FnOnce() + Send> {
+    let ctx = ctx.clone();
+    Box::new(move || {
+        let mut kr = Rng::new(seed);
+        let mut done = 0;
+        loop {
+            if steps.is_some_and(|n| done >= n) {
+                return;
+            }
+            let candidates = |c: &Ctx| -> Vec<(usize, u64)> {
+                (0..c.kinds.len())
+                    .filter(|&i| c.script_pos[i] < c.scripts[i].len())
+                    .filter_map(|i| c.ud[i].and_then(|ud| simk::with(|s| s.find_req_by_user_data(ud)).map(|req| (i, req))))
+                    .collect()
+            };
+            {
+                let c = ctx.lock().unwrap();
+                let used_up = (0..c.kinds.len()).all(|i| c.script_pos[i] >= c.scripts[i].len());
+                if used_up || (steps.is_none() && candidates(&c).is_empty()) {
+                    return;
+                }
+            }
+            sched::yield_point(200);
+            done += 1;
+            let mut c = ctx.lock().unwrap();
+            let cand = candidates(&c);
+            let n = c.kinds.len();
+            if cand.is_empty() || (steps.is_some() && kr.chance(1, 8)) {
+                c.kchoices.push(n);
+                continue;
+            }
+            let (i, req) = cand[kr.below(cand.len() as u64) as usize];
+            let cq = c.scripts[i][c.script_pos[i]];
+            c.script_pos[i] += 1;
+            c.kchoices.push(i);
+            drop(c);
+            let flags = if cq.more { abi::CQE_F_MORE } else { 0 } | if cq.notif { abi::CQE_F_NOTIF } else { 0 };
+            simk::with(|s| s.complete(req, cq.res, flags));
+        }
     })
 }
 
 /// One API call of future thread `t` on operation `i`, recorded in the thread's program.
-fn do_poll(ctx: &Arc<Mutex<Ctx>>, t: usize, i: usize) {
-    let (mut f, w) = {
+/// `fresh`: with a new waker; otherwise with the waker object of the previous poll of `i`.
+fn do_poll(ctx: &Arc<Mutex<Ctx>>, t: usize, i: usize, fresh: bool) {
+    let (mut f, w, waker) = {
         let mut c = ctx.lock().unwrap();
         let f = c.futs[i].take().unwrap();
-        let w = c.next_waker;
-        c.next_waker += 1;
+        let w = match c.last_poll[i] {
+            Some((lw, _)) if !fresh => {
+                c.same_waker_repolls += 1;
+                lw
+            }
+            _ => {
+                let w = c.next_waker;
+                c.next_waker += 1;
+                w
+            }
+        };
         c.progs[t].push(Call::Poll(i, w));
         if let Some((lw, true)) = c.last_poll[i] {
-            if !c.woken_ids.contains(&lw) {
+            if c.wakes.get(&lw).copied().unwrap_or(0) == c.wakes_at_poll[i] {
                 c.repolls_unwoken += 1;
             }
         }
-        (f, w)
+        if c.kinds[i] == Kind::Multi && c.in_ring_poll && c.in_race && c.started[i] {
+            c.stream_polls_during_ring_poll += 1;
+        }
+        let waker = match c.waker_cache.get(&w) {
+            Some(wk) => wk.clone(),
+            None => {
+                let wk = Waker::from(Arc::new(RaceWaker { id: w, ctx: ctx.clone() }));
+                c.waker_cache.insert(w, wk.clone());
+                wk
+            }
+        };
+        (f, w, waker)
     };
-    let waker = Waker::from(Arc::new(RaceWaker { id: w, ctx: ctx.clone() }));
-    let res = poll_once(f.as_mut(), &waker);
+    // 10 pending, 11 ready with a value, 12 error, 13 end of the stream
+    let polled = std::panic::catch_unwind(std::panic::AssertUnwindSafe(|| match &mut f {
+        Fut::Res(f) => match poll_once(f.as_mut(), &waker) {
+            Poll::Pending => (10, 0, None),
+            Poll::Ready(Ok(n)) => (11, n as i128, None),
+            Poll::Ready(Err(e)) => (12, -(e.raw_os_error().unwrap_or(99_999) as i128), None),
+        },
+        Fut::Accept(f) => {
+            let mut cx = std::task::Context::from_waker(&waker);
+            match f.as_mut().poll_next(&mut cx) {
+                Poll::Pending => (10, 0, None),
+                Poll::Ready(None) => (13, 0, None),
+                Poll::Ready(Some(Ok(fd))) => {
+                    let raw = fd.as_fd().map(|b| std::os::fd::AsRawFd::as_raw_fd(&b)).unwrap_or(-1);
+                    (11, raw as i128, Some(fd))
+                }
+                Poll::Ready(Some(Err(e))) => (12, -(e.raw_os_error().unwrap_or(99_999) as i128), None),
+            }
+        }
+    }));
+    let (code, val, afd): (i128, i128, Option<a10::AsyncFd>) = match polled {
+        Ok(x) => x,
+        Err(p) => {
+            // The state is unknown after a panic: leak the future (dropping it could panic again).
+            std::mem::forget(f);
+            let mut c = ctx.lock().unwrap();
+            c.ev.push(14);
+            c.fail(format!("polling operation {i} panicked"));
+            drop(c);
+            std::panic::resume_unwind(p);
+        }
+    };
     drop(waker);
     // Still in the segment in which the poll returned: a submission queued by it is pending.
     let queued = simk::with(|s| s.pending_sqes()).iter().any(|q| q.opcode != abi::OP_ASYNC_CANCEL && q.fd == fake_fd(i));
@@ -192,22 +383,66 @@ fn do_poll(ctx: &Arc<Mutex<Ctx>>, t: usize, i: usize) {
     if queued {
         c.started[i] = true;
     }
-    match res {
-        Poll::Pending => {
-            c.ev.push(10);
-            c.last_poll[i] = Some((w, true));
+    if let Some(fd) = afd {
+        c.accepted.push(ManuallyDrop::new(fd));
+    }
+    c.ev.push(code);
+    c.last_poll[i] = Some((w, code == 10));
+    c.wakes_at_poll[i] = c.wakes.get(&w).copied().unwrap_or(0);
+    let kind = c.kinds[i];
+    match code {
+        10 => {
             if !c.started[i] {
                 c.parked += 1;
             }
             c.futs[i] = Some(f);
         }
-        Poll::Ready(r) => {
-            c.ev.push(11);
-            c.last_poll[i] = Some((w, false));
-            if !matches!(r, Ok(7)) {
-                c.fail(format!("operation {i} finished with {r:?}, the kernel completed it with 7"));
+        11 | 12 => {
+            c.ev.push(val);
+            c.outs[i].push(val);
+            // C02: the value is the next result the kernel posted for THIS request; a single-shot /
+            // two-step operation resolves only after its final completion, with the result of its
+            // (first) completion that is not a notification.
+            let k = c.outs[i].len() - 1;
+            let posted = c.posted[i].clone();
+            if kind == Kind::Multi {
+                c.items += 1;
+                match posted.get(k) {
+                    Some(p) if p.res as i128 == val && code == 11 => {}
+                    Some(p) => {
+                        let want = p.res;
+                        let all: Vec<i32> = posted.iter().map(|p| p.res).collect();
+                        c.fail(format!("stream {i}: item {k} handed out is {val}, the kernel's completion {k} for this request carried {want} (posted so far, in order: {all:?})"));
+                    }
+                    None => c.fail(format!("stream {i}: item {k} = {val} was handed out but the kernel posted only {} completion(s) for this request", posted.len())),
+                }
+                c.futs[i] = Some(f);
+            } else {
+                let first = posted.iter().find(|p| !p.notif).map(|p| p.res as i128);
+                let final_posted = posted.iter().any(|p| !p.more);
+                if !final_posted {
+                    c.fail(format!("operation {i} ({kind:?}) resolved with {val} before its final completion was posted ({} posted)", posted.len()));
+                } else if first != Some(val) || code != 11 {
+                    c.fail(format!("operation {i} ({kind:?}) finished with {val} (code {code}), the kernel completed its request with {first:?}"));
+                }
+                // The finished future is dropped: a call of its own (State::drop takes the mutex).
+                c.progs[t].push(Call::DropOp(i));
+                c.drop_called[i] = true;
+                drop(c);
+                drop(f);
             }
-            // The finished future is dropped: a call of its own (State::drop takes the mutex).
+        }
+        _ => {
+            // End of the stream: only after the final completion, everything posted handed out.
+            let posted = c.posted[i].clone();
+            if c.ended[i] {
+                c.fail(format!("stream {i} ended twice"));
+            }
+            c.ended[i] = true;
+            if !posted.iter().any(|p| !p.more) || c.outs[i].len() != posted.len() {
+                let n_out = c.outs[i].len();
+                c.fail(format!("stream {i} ended after handing out {n_out} item(s) although the kernel posted {} completion(s) (final posted: {})", posted.len(), posted.iter().any(|p| !p.more)));
+            }
             c.progs[t].push(Call::DropOp(i));
             c.drop_called[i] = true;
             drop(c);
@@ -222,6 +457,14 @@ fn do_drop(ctx: &Arc<Mutex<Ctx>>, t: usize, i: usize) {
         let f = c.futs[i].take().unwrap();
         c.progs[t].push(Call::DropOp(i));
         c.drop_called[i] = true;
+        if c.in_race {
+            if let Some(ud) = c.ud[i] {
+                if simk::with(|s| s.find_req_by_user_data(ud)).is_some() {
+                    let k = c.kinds[i] as usize;
+                    c.drops_of_running[k] += 1;
+                }
+            }
+        }
         f
     };
     drop(f);
@@ -231,31 +474,99 @@ pub fn one_case(r: &mut Rng, silent: &Arc<Mutex<Option<String>>>, debug: bool) -
     alloc::enable(false);
     alloc::unwatch_all();
     let _ = alloc::take_bad_frees();
+    let _ = alloc::take_freed();
     let cap = *r.pick(&[1u32, 1, 2, 2, 4]);
     let n_fthreads = if r.chance(1, 3) { 2 } else { 1 };
     let n_futs = r.range(2, 5) as usize;
-    let ring_polls = r.range(1, 4) as usize;
+    let ring_polls = r.range(1, 5) as usize;
     let rounds = r.range(1, 3) as usize;
     let drop_mode = *r.pick(&[0u64, 0, 1, 2]); // none / some / many drops in the race
     let with_drops = drop_mode > 0;
     let drop_pct = [0u64, 25, 66][drop_mode as usize];
     let impatient = *r.pick(&[0u64, 20, 50]);
     let preempt = *r.pick(&[10u64, 25, 40, 60]);
-    let n_threads = 1 + n_fthreads;
-    let prefix: Vec<usize> = (0..400).map(|_| if r.below(100) < preempt { 1 + r.below(n_threads as u64 - 1) as usize } else { 0 }).collect();
-    let thread_seeds: Vec<u64> = (0..n_fthreads).map(|_| r.next()).collect();
-    simk::configure(simk::SetupConfig { sq_start: r.next() as u32, cq_start: r.next() as u32, auto_complete: Some((7, 0)), ..Default::default() });
+    // One case in five: the auto-completing kernel with single-shot operations only (every request
+    // completes with 7 inside the system call that consumes it); otherwise scripted completions
+    // posted by the kernel thread, all kinds mixed.
+    let auto = r.chance(1, 5);
+    let same_waker_pct = *r.pick(&[0u64, 30, 60]);
+    let mut kinds: Vec<Kind> = Vec::new();
+    let mut scripts: Vec<Vec<Cq>> = Vec::new();
+    let mut canc: Vec<bool> = Vec::new();
+    let kind_bias = r.below(4); // 0 mixed, 1 mostly streams, 2 mostly two-step, 3 mostly single-shot
+    for i in 0..n_futs {
+        let kind = if auto {
+            Kind::Single
+        } else {
+            let pool: &[Kind] = match kind_bias {
+                1 => &[Kind::Multi, Kind::Multi, Kind::Multi, Kind::TwoStep, Kind::Single],
+                2 => &[Kind::TwoStep, Kind::TwoStep, Kind::TwoStep, Kind::Multi, Kind::Single],
+                3 => &[Kind::Single, Kind::Single, Kind::Single, Kind::Multi, Kind::TwoStep],
+                _ => &[Kind::Single, Kind::Multi, Kind::TwoStep],
+            };
+            *r.pick(pool)
+        };
+        let script = if auto {
+            Vec::new()
+        } else {
+            match kind {
+                Kind::Single => vec![Cq { res: 100 + 7 * i as i32, more: false, notif: false }],
+                Kind::Multi => {
+                    // k results with F_MORE, then (two times in three) a final one, itself a result
+                    let k = r.below(5) as usize;
+                    let mut v: Vec<Cq> = (0..k).map(|j| Cq { res: accepted_fd(i, j), more: true, notif: false }).collect();
+                    if r.chance(2, 3) {
+                        v.push(Cq { res: accepted_fd(i, k), more: false, notif: false });
+                    }
+                    v
+                }
+                Kind::TwoStep => {
+                    if r.chance(1, 8) {
+                        // an old kernel / a send that fails early: one completion, no notification
+                        vec![Cq { res: 200 + 7 * i as i32, more: false, notif: false }]
+                    } else {
+                        vec![Cq { res: 200 + 7 * i as i32, more: true, notif: false }, Cq { res: 0, more: false, notif: true }]
+                    }
+                }
+            }
+        };
+        kinds.push(kind);
+        scripts.push(script);
+        canc.push(r.chance(2, 3));
+    }
+    // Kernel steps in the race: up to three per scripted completion (a step finds nothing to do while
+    // no request with completions left is in flight); the thread stops when every script is used up.
+    let k_steps = if auto { 0 } else { (scripts.iter().map(Vec::len).sum::<usize>() as u64 * r.range(0, 3) + r.below(4)) as usize };
+    let n_threads = 2 + n_fthreads; // ring, futures, kernel
+    let prefix: Vec<usize> = (0..500).map(|_| if r.below(100) < preempt { 1 + r.below(n_threads as u64 - 1) as usize } else { 0 }).collect();
+    let thread_seeds: Vec<u64> = (0..n_fthreads + 1).map(|_| r.next()).collect();
+    simk::configure(simk::SetupConfig {
+        sq_start: r.next() as u32,
+        cq_start: r.next() as u32,
+        auto_complete: if auto { Some((7, 0)) } else { None },
+        ..Default::default()
+    });
     let ring = a10::Ring::config().with_submission_queue_size(cap).with_completion_queue_size(64).build().expect("ring on the simulated kernel");
     let ring_fd = simk::with(|s| s.fd);
     let sq = ring.sq();
     let mut fds: Vec<Box<ManuallyDrop<a10::AsyncFd>>> = Vec::new();
-    let mut futs: Vec<Option<BoxFut>> = Vec::new();
+    let mut futs: Vec<Option<Fut>> = Vec::new();
     for i in 0..n_futs {
         simk::add_fake_fd(fake_fd(i));
+        simk::with(|s| s.cancel_policy.push((fake_fd(i), canc[i])));
+        for c in &scripts[i] {
+            if kinds[i] == Kind::Multi {
+                simk::add_fake_fd(c.res);
+            }
+        }
         let fd = Box::new(ManuallyDrop::new(unsafe { a10::AsyncFd::from_raw_fd(fake_fd(i), sq.clone()) }));
         let fd_ref: &'static a10::AsyncFd = unsafe { &*(&**fd as *const a10::AsyncFd) };
         fds.push(fd);
-        futs.push(Some(Box::pin(fd_ref.write(DATA))));
+        futs.push(Some(match kinds[i] {
+            Kind::Single => Fut::Res(Box::pin(fd_ref.write(DATA))),
+            Kind::TwoStep => Fut::Res(Box::pin(fd_ref.send(DATA).zc())),
+            Kind::Multi => Fut::Accept(Box::pin(fd_ref.multishot_accept())),
+        }));
     }
     let ctx = Arc::new(Mutex::new(Ctx {
         ev: Vec::new(),
@@ -273,6 +584,23 @@ pub fn one_case(r: &mut Rng, silent: &Arc<Mutex<Option<String>>>, debug: bool) -
         oracle: None,
         parked: 0,
         repolls_unwoken: 0,
+        kinds: kinds.clone(),
+        scripts: scripts.clone(),
+        script_pos: vec![0; n_futs],
+        kchoices: Vec::new(),
+        posted: vec![Vec::new(); n_futs],
+        outs: vec![Vec::new(); n_futs],
+        ended: vec![false; n_futs],
+        wakes: HashMap::new(),
+        wakes_at_poll: vec![0; n_futs],
+        waker_cache: HashMap::new(),
+        accepted: Vec::new(),
+        same_waker_repolls: 0,
+        stream_polls_during_ring_poll: 0,
+        drops_of_running: vec![0; 3],
+        items: 0,
+        in_ring_poll: false,
+        in_race: true,
     }));
     let ring_cell = Arc::new(Mutex::new(Some(ring)));
     let _ = simk::with(|s| s.take_log());
@@ -300,13 +628,29 @@ pub fn one_case(r: &mut Rng, silent: &Arc<Mutex<Option<String>>>, debug: bool) -
         drain(&ctx, n_futs);
         out
     };
+    let idle = || -> Box<dyn FnOnce() + Send> { Box::new(|| {}) };
+    // Thread ids: 0 the ring, 1..=n_fthreads the futures, n_fthreads+1 the kernel.
+    let ring_only = |polls: usize| -> Vec<Box<dyn FnOnce() + Send>> {
+        let mut v: Vec<Box<dyn FnOnce() + Send>> = vec![ring_thread(&ring_cell, &ctx, polls)];
+        for _ in 0..n_fthreads + 1 {
+            v.push(idle());
+        }
+        v
+    };
+    let kernel_only = |seed: u64| -> Vec<Box<dyn FnOnce() + Send>> {
+        let mut v: Vec<Box<dyn FnOnce() + Send>> = Vec::new();
+        for _ in 0..n_fthreads + 1 {
+            v.push(idle());
+        }
+        v.push(if auto { idle() } else { kernel_thread(&ctx, seed, None) });
+        v
+    };
 
-    // ---- phase 1: the race -----------------------------------------------------------------------
-    let mut threads: Vec<Box<dyn FnOnce() + Send>> = vec![ring_thread(&ring_cell, ring_polls)];
-    for t in 0..n_fthreads {
+    // A future thread: `rounds + 1` passes over its operations: poll what was never polled, what was
+    // woken, a stream that just handed out an item; re-poll unwoken (impatient); drop mid-race.
+    let future_thread = |t: usize, seed: u64, rounds: usize| -> Box<dyn FnOnce() + Send> {
         let ctx = ctx.clone();
-        let seed = thread_seeds[t];
-        threads.push(Box::new(move || {
+        Box::new(move || {
             let mut tr = Rng::new(seed);
             for round in 0..=rounds {
                 for i in (0..n_futs).filter(|i| i % n_fthreads == t) {
@@ -324,8 +668,19 @@ pub fn one_case(r: &mut Rng, silent: &Arc<Mutex<Option<String>>>, debug: bool) -
                                         1
                                     }
                                 }
-                                Some((w, _)) => {
-                                    if c.woken_ids.contains(&w) || tr.below(100) < impatient {
+                                // a stream that handed out an item: usually asked for the next one
+                                Some((_, false)) => {
+                                    if tr.below(100) < drop_pct / 2 {
+                                        2
+                                    } else if tr.chance(4, 5) {
+                                        1
+                                    } else {
+                                        0
+                                    }
+                                }
+                                Some((w, true)) => {
+                                    let woken = c.wakes.get(&w).copied().unwrap_or(0) > c.wakes_at_poll[i];
+                                    if woken || tr.below(100) < impatient {
                                         1
                                     } else if tr.below(100) < drop_pct {
                                         2
@@ -337,7 +692,10 @@ pub fn one_case(r: &mut Rng, silent: &Arc<Mutex<Option<String>>>, debug: bool) -
                         }
                     };
                     match action {
-                        1 => do_poll(&ctx, t, i),
+                        1 => {
+                            let fresh = tr.below(100) >= same_waker_pct;
+                            do_poll(&ctx, t, i, fresh)
+                        }
                         2 => do_drop(&ctx, t, i),
                         _ => {}
                     }
@@ -347,8 +705,15 @@ pub fn one_case(r: &mut Rng, silent: &Arc<Mutex<Option<String>>>, debug: bool) -
                     sched::yield_point(100);
                 }
             }
-        }));
+        })
+    };
+
+    // ---- phase 1: the race -----------------------------------------------------------------------
+    let mut threads: Vec<Box<dyn FnOnce() + Send>> = vec![ring_thread(&ring_cell, &ctx, ring_polls)];
+    for t in 0..n_fthreads {
+        threads.push(future_thread(t, thread_seeds[t], rounds));
     }
+    threads.push(if auto { idle() } else { kernel_thread(&ctx, thread_seeds[n_fthreads], Some(k_steps)) });
     let o = run_phase(threads, &prefix);
     acc(o, &mut exec);
     let race_len = exec.len();
@@ -357,35 +722,70 @@ pub fn one_case(r: &mut Rng, silent: &Arc<Mutex<Option<String>>>, debug: bool) -
     let overlap = exec.iter().any(|e| e.0 == 0 && e.1 == a10::verif::points::LOCK_SPIN);
     let fut_spin = exec.iter().any(|e| e.0 != 0 && e.1 == a10::verif::points::LOCK_SPIN);
 
-    // ---- phase 2: the ring alone -----------------------------------------------------------------
-    // Every poll wakes as many parked wakers as there are free slots (at least one here, the queue
-    // being empty after the first poll), oldest first; a future re-polled while the queue was full
-    // has left one waker per poll on the list.
-    let settle_polls = n_futs + 2 + ctx.lock().unwrap().parked;
-    let mut threads: Vec<Box<dyn FnOnce() + Send>> = vec![ring_thread(&ring_cell, settle_polls)];
-    for _ in 0..n_fthreads {
-        threads.push(Box::new(|| {}));
-    }
-    let o = run_phase(threads, &[]);
-    acc(o, &mut exec);
-    {
+    // The wake-up oracle, at a point where everything posted has been dispatched: a future whose most
+    // recent poll returned Pending and which is READY (single-shot / two-step: final completion posted;
+    // stream: a posted completion that was not handed out) or was waiting for a submission slot has
+    // had the waker of that poll invoked since.
+    let wake_oracle = |settle_polls: usize| {
         let mut c = ctx.lock().unwrap();
         for i in 0..n_futs {
             if let (true, Some((w, true))) = (c.futs[i].is_some(), c.last_poll[i]) {
-                if !c.woken_ids.contains(&w) {
-                    let parked = !c.started[i];
+                let woken = c.wakes.get(&w).copied().unwrap_or(0) > c.wakes_at_poll[i];
+                let parked = !c.started[i];
+                let ready = if c.kinds[i] == Kind::Multi { c.posted[i].len() > c.outs[i].len() } else { c.posted[i].iter().any(|p| !p.more) };
+                if !woken && (parked || ready) {
+                    let kind = c.kinds[i];
+                    let n = c.posted[i].len();
                     c.fail(format!(
-                        "future {i} returned Pending (waker {w}) and that waker was never invoked although Ring::poll was called {} more times afterwards ({}); an executor that re-polls only when woken is stuck",
+                        "future {i} ({kind:?}) returned Pending (waker {w}) and that waker was not invoked since, although Ring::poll was called {} more times afterwards ({}); an executor that re-polls only when woken is stuck",
                         settle_polls,
-                        if parked { "it was waiting for a submission slot" } else { "its completion was processed" }
+                        if parked { "it was waiting for a submission slot".to_string() } else { format!("{n} completion(s) of it were posted and processed") }
                     ));
                 }
             }
         }
-    }
+    };
 
-    // ---- phase 3: drop what is left --------------------------------------------------------------
-    let mut threads: Vec<Box<dyn FnOnce() + Send>> = vec![Box::new(|| {})];
+    // ---- phase 2: the kernel posts some more (scripted kernel), then the ring alone ------------------
+    let more_steps = if auto { 0 } else { r.below(4) as usize };
+    let mut threads = kernel_only(0);
+    threads[n_fthreads + 1] = if auto { idle() } else { kernel_thread(&ctx, thread_seeds[n_fthreads] ^ 1, Some(more_steps)) };
+    let o = run_phase(threads, &[]);
+    acc(o, &mut exec);
+    // Every poll wakes as many parked wakers as there are free slots (at least one here, the queue
+    // being empty after the first poll), oldest first; a future re-polled while the queue was full
+    // has left one waker per poll on the list.
+    let settle_polls = n_futs + 2 + ctx.lock().unwrap().parked;
+    let o = run_phase(ring_only(settle_polls), &[]);
+    acc(o, &mut exec);
+    wake_oracle(settle_polls);
+
+    // ---- phase 3: a second race: the woken futures are polled again (stream items, results), more
+    //      completions are posted and dispatched meanwhile ------------------------------------------------
+    let ring_polls_b = r.range(1, 4) as usize;
+    let rounds_b = r.range(1, 4) as usize;
+    let prefix_b: Vec<usize> = (0..500).map(|_| if r.below(100) < preempt { 1 + r.below(n_threads as u64 - 1) as usize } else { 0 }).collect();
+    ctx.lock().unwrap().in_race = true;
+    let mut threads: Vec<Box<dyn FnOnce() + Send>> = vec![ring_thread(&ring_cell, &ctx, ring_polls_b)];
+    for t in 0..n_fthreads {
+        threads.push(future_thread(t, thread_seeds[t] ^ 0xB, rounds_b));
+    }
+    threads.push(if auto { idle() } else { kernel_thread(&ctx, thread_seeds[n_fthreads] ^ 0xB, Some(3 * k_steps + 4)) });
+    let o = run_phase(threads, &prefix_b);
+    acc(o, &mut exec);
+    ctx.lock().unwrap().in_race = false;
+    let overlap = overlap || exec.iter().skip(race_len).any(|e| e.0 == 0 && e.1 == a10::verif::points::LOCK_SPIN);
+
+    // ---- phase 4: the kernel finishes the scripts of what is in flight, then the ring alone ----------
+    let o = run_phase(kernel_only(thread_seeds[n_fthreads] ^ 3), &[]);
+    acc(o, &mut exec);
+    let settle_polls_b = n_futs + 2 + ctx.lock().unwrap().parked;
+    let o = run_phase(ring_only(settle_polls_b), &[]);
+    acc(o, &mut exec);
+    wake_oracle(settle_polls_b);
+
+    // ---- phase 5: drop what is left --------------------------------------------------------------
+    let mut threads: Vec<Box<dyn FnOnce() + Send>> = vec![idle()];
     for t in 0..n_fthreads {
         let ctx = ctx.clone();
         threads.push(Box::new(move || {
@@ -396,19 +796,20 @@ pub fn one_case(r: &mut Rng, silent: &Arc<Mutex<Option<String>>>, debug: bool) -
             }
         }));
     }
+    threads.push(idle());
     let o = run_phase(threads, &[]);
     acc(o, &mut exec);
 
-    // ---- phase 4: the ring alone, reaping --------------------------------------------------------
-    let mut threads: Vec<Box<dyn FnOnce() + Send>> = vec![ring_thread(&ring_cell, 2)];
-    for _ in 0..n_fthreads {
-        threads.push(Box::new(|| {}));
-    }
-    let o = run_phase(threads, &[]);
+    // ---- phase 6: the ring alone, reaping; the kernel finishes what survived its cancellation --------
+    let o = run_phase(ring_only(2), &[]);
+    acc(o, &mut exec);
+    let o = run_phase(kernel_only(thread_seeds[n_fthreads] ^ 2), &[]);
+    acc(o, &mut exec);
+    let o = run_phase(ring_only(2), &[]);
     acc(o, &mut exec);
     sched::set_observer(None);
 
-    let total_polls = ring_polls + settle_polls + 2;
+    let total_polls = ring_polls + settle_polls + ring_polls_b + settle_polls_b + 4;
     let (sq_pending, cq_ready, inflight) = simk::with_fd(ring_fd, |s| {
         s.check_counters();
         (s.sq_pending() as i128, s.cq_ready() as i128, s.inflight.len() as i128)
@@ -416,10 +817,12 @@ pub fn one_case(r: &mut Rng, silent: &Arc<Mutex<Option<String>>>, debug: bool) -
     .unwrap_or((0, 0, 0));
     let mut obs: Vec<i128>;
     let progs: Vec<Vec<Call>>;
+    let kchoices: Vec<usize>;
     {
         let mut c = ctx.lock().unwrap();
         obs = std::mem::take(&mut c.ev);
         progs = c.progs.clone();
+        kchoices = c.kchoices.clone();
         obs.extend([-2, 0, 0, sq_pending, cq_ready, inflight]);
         obs.push(-3);
         for i in 0..n_futs {
@@ -442,7 +845,8 @@ pub fn one_case(r: &mut Rng, silent: &Arc<Mutex<Option<String>>>, debug: bool) -
         for i in 0..n_futs {
             if c.ud[i].is_some() && c.frees[i] != 1 && oracle.is_none() {
                 oracle = Some(format!(
-                    "the state of operation {i} was freed {} times although its future and the ring were dropped ({})",
+                    "the state of operation {i} ({:?}) was freed {} times although its future and the ring were dropped ({})",
+                    c.kinds[i],
                     c.frees[i],
                     if c.frees[i] == 0 { "leaked" } else { "freed more than once" }
                 ));
@@ -463,15 +867,27 @@ pub fn one_case(r: &mut Rng, silent: &Arc<Mutex<Option<String>>>, debug: bool) -
     simk::retire(ring_fd);
 
     // ---- the case as a Coq term ------------------------------------------------------------------
+    let ktid = n_fthreads + 1;
     let mut events = String::new();
     let mut js = String::new();
+    let mut kpos = 0;
     for (k, (t, p)) in exec.iter().enumerate() {
         if k > 0 {
             events.push_str("; ");
             js.push(',');
         }
-        let _ = write!(events, "T {t}%nat");
-        let _ = write!(js, "\"T{t}@{p}\"");
+        if *t == ktid {
+            let i = kchoices.get(kpos).copied().unwrap_or(n_futs);
+            kpos += 1;
+            let _ = write!(events, "K {i}%nat");
+            let _ = write!(js, "\"K{i}\"");
+        } else {
+            // (a use after free in the code under test can scribble over the execution log: keep the
+            // term small enough for the model to evaluate; it will disagree anyway)
+            let t = (*t).min(99);
+            let _ = write!(events, "T {t}%nat");
+            let _ = write!(js, "\"T{t}@{p}\"");
+        }
     }
     let coq_call = |c: &Call| match c {
         Call::Poll(i, w) => format!("Poll {i}%nat {w}%N"),
@@ -483,14 +899,24 @@ pub fn one_case(r: &mut Rng, silent: &Arc<Mutex<Option<String>>>, debug: bool) -
         Call::DropOp(i) => format!("\"drop(op{i})\""),
         Call::Yield => "\"yield\"".to_string(),
     };
+    let coq_cq = |c: &Cq| format!("{{| c_res := ({})%Z; c_more := {}; c_notif := {} |}}", c.res, c.more, c.notif);
+    let js_cq = |c: &Cq| format!("{{\"res\":{},\"more\":{},\"notif\":{}}}", c.res, c.more, c.notif);
     let coq_progs: Vec<String> = progs.iter().map(|p| format!("[{}]", p.iter().map(coq_call).collect::<Vec<_>>().join("; "))).collect();
     let js_progs: Vec<String> = progs.iter().map(|p| format!("[{}]", p.iter().map(js_call).collect::<Vec<_>>().join(","))).collect();
+    let coq_scripts: Vec<String> = scripts.iter().map(|p| format!("[{}]", p.iter().map(coq_cq).collect::<Vec<_>>().join("; "))).collect();
+    let js_scripts: Vec<String> = scripts.iter().map(|p| format!("[{}]", p.iter().map(js_cq).collect::<Vec<_>>().join(","))).collect();
     let coq = format!(
-        "{{| rc_cap := {cap}%N; rc_nops := {n_futs}%nat; rc_polls := {total_polls}%nat; rc_progs := [{}]; rc_events := [{events}] |}}",
+        "{{| rc_cap := {cap}%N; rc_auto := {auto}; rc_nops := {n_futs}%nat; rc_kinds := [{}]; rc_canc := [{}]; rc_scripts := [{}]; rc_polls := {total_polls}%nat; rc_progs := [{}]; rc_events := [{events}] |}}",
+        kinds.iter().map(|k| k.coq()).collect::<Vec<_>>().join("; "),
+        canc.iter().map(|b| b.to_string()).collect::<Vec<_>>().join("; "),
+        coq_scripts.join("; "),
         coq_progs.join("; ")
     );
     let json = format!(
-        "{{\"sq_entries\":{cap},\"futures\":{n_futs},\"future_threads\":{n_fthreads},\"ring_polls_in_race\":{ring_polls},\"rounds\":{rounds},\"drops_in_race\":{drop_mode},\"programs\":[{}],\"race_steps\":{race_len},\"schedule\":[{js}]}}",
+        "{{\"sq_entries\":{cap},\"auto_complete\":{auto},\"futures\":{n_futs},\"kinds\":[{}],\"cancel_wins\":[{}],\"scripts\":[{}],\"future_threads\":{n_fthreads},\"ring_polls_in_race\":{ring_polls},\"kernel_steps_in_race\":{k_steps},\"rounds\":{rounds},\"drops_in_race\":{drop_mode},\"programs\":[{}],\"race_steps\":{race_len},\"schedule\":[{js}]}}",
+        kinds.iter().map(|k| format!("\"{}\"", k.coq())).collect::<Vec<_>>().join(","),
+        canc.iter().map(|b| b.to_string()).collect::<Vec<_>>().join(","),
+        js_scripts.join(","),
         js_progs.join(",")
     );
     if debug {
@@ -498,24 +924,35 @@ pub fn one_case(r: &mut Rng, silent: &Arc<Mutex<Option<String>>>, debug: bool) -
         println!("obs {:?}", obs);
         println!("oracle {:?}", oracle);
     }
-    let (parked, repolls_unwoken) = {
-        let c = ctx.lock().unwrap();
-        (c.parked, c.repolls_unwoken)
-    };
-    let dropped_running = progs.iter().flatten().filter(|c| matches!(c, Call::DropOp(_))).count();
-    let _ = dropped_running;
+    let mut c = ctx.lock().unwrap();
+    let (parked, repolls_unwoken) = (c.parked, c.repolls_unwoken);
+    let has = |k: Kind| kinds.contains(&k);
+    let dropped_running: usize = c.drops_of_running.iter().sum();
     let tags = vec![
         format!("cap:{cap}"),
+        format!("kernel:{}", if auto { "auto-completing" } else { "scripted" }),
+        format!("kinds:{}{}{}", if has(Kind::Single) { "S" } else { "" }, if has(Kind::Multi) { "M" } else { "" }, if has(Kind::TwoStep) { "T" } else { "" }),
         format!("future_threads:{n_fthreads}"),
         format!("preemptions:{}", preemptions.min(8)),
         format!("call_overlaps_dispatch_of_same_op:{overlap}"),
+        format!("stream_poll_during_ring_poll_of_started_stream:{}", c.stream_polls_during_ring_poll > 0),
+        format!("stream_items_handed_out:{}", c.items.min(6)),
+        format!("streams_ended:{}", c.ended.iter().filter(|e| **e).count().min(3)),
         format!("future_thread_spun:{fut_spin}"),
         format!("parked_wakers:{}", parked.min(4)),
         format!("repolls_with_replaced_waker:{}", repolls_unwoken.min(4)),
+        format!("repolls_with_same_waker:{}", c.same_waker_repolls.min(4)),
         format!("drops_in_race:{}", ["none", "some", "many"][drop_mode as usize]),
-        format!("cancels_consumed:{}", ctx.lock().unwrap().cancels.iter().sum::<usize>().min(3)),
+        format!("drops_of_running_in_race:{}", dropped_running.min(4)),
+        format!("drop_of_running_single_in_race:{}", c.drops_of_running[0] > 0),
+        format!("drop_of_running_stream_in_race:{}", c.drops_of_running[1] > 0),
+        format!("drop_of_running_two_step_in_race:{}", c.drops_of_running[2] > 0),
+        format!("cancels_consumed:{}", c.cancels.iter().sum::<usize>().min(3)),
     ];
-    // Break the reference cycle ctx -> futs (all dropped) and wakers -> ctx.
+    // Break the reference cycles ctx -> wakers / futures -> ctx.
+    c.waker_cache.clear();
+    c.futs.clear();
+    drop(c);
     Case { coq, obs, json, oracle, known: None, tags, nontrivial: preemptions > 0 }
 }
 
